@@ -33,6 +33,22 @@ CHECKS = {
          "DelimOK, and C03_ce / C03_ec / C03_bijection for prefix-free maps, for all URIs, CURIEs and identifiers. "
          "Correspondence feeds the implementation's own compress/expand outputs back into it (two-phase cases).",
     design="§7 C03", technique="Lean 4 theorem (round-trip laws over the specification, transferred by T0) + two-phase model/implementation correspondence"),
+ "C04": dict(
+    text="Proof: C04_iff (strict construction succeeds iff no CURIE prefix / synonym and no URI prefix / synonym has two "
+         "owners, for every finite collection in every order), C04_which (URI clashes are reported first), C04_listing "
+         "(the error lists exactly the clashing pairs), C04_record (validators), C04_owner and C04_bimap (one owner per "
+         "prefix; bimap / reverse_bimap mutually inverse), C04_loader_* (loaders hand validated records to the same "
+         "constructor). Correspondence plants every clash orientation and runs constructor, listing and loaders.",
+    design="§7 C04", technique="Lean 4 theorem (iff between the pairwise duplicate listing and one-owner uniqueness) + model/implementation correspondence"),
+ "C05": dict(
+    text="Proof: T2 (C05_step: add_record keeps the invariant WF = one owner per prefix + validated records + all indexes "
+         "mirror the records, for every flag combination and every case-folding function), lifted by induction to every "
+         "finite history (C05_histories), with C05_reject (ValueError, exactly when one match without merge or several "
+         "matches), C05_shape / C05_resolves (append unchanged or merge keeping canonical prefix, URI prefix and pattern), "
+         "and C05_fresh / C05_histories_fresh (answers equal those of a converter freshly built from the current records, "
+         "via T0 and permutation invariance of the specification). Correspondence replays histories with planted overlaps "
+         "and observes records, all five lookup structures and a probe set after every operation.",
+    design="§7 C05", technique="Lean 4 theorem (invariant by induction over operation histories, refinement T0) + history correspondence with full observation after each step"),
  "C06": dict(
     text="Proof: C06_prefix, C06_prefix_idem, C06_curie, C06_uri for every strict converter; C06_uri_idem / C06_uri_meaning "
          "for prefix-free maps (with a proved counterexample showing the hypothesis is needed). standardize_curie "
